@@ -104,8 +104,9 @@ def nasty_floats(rnd, n):
 
 def _c04f_cases(tier, seed):
     rnd = random.Random(seed + 4)
-    for _ in range(6 if tier == "quick" else 60):
-        yield {"rs": rnd.randrange(10 ** 9), "n": 300 if tier == "quick" else 3000}
+    for i in range(6 if tier == "quick" else 60):
+        # (every third tuple: a 12-parameter space - column names params_samp_10, _11 sort before params_samp_2)
+        yield {"rs": rnd.randrange(10 ** 9), "n": 300 if tier == "quick" else 3000, "P": 12 if i % 3 == 1 else 2}
 
 
 def _c04f_check(reg, case):
@@ -114,7 +115,8 @@ def _c04f_check(reg, case):
     from black_it.utils import sqlite3_checkpointing as sq
     rnd = random.Random(case["rs"])
     n = case["n"]
-    params = np.array(nasty_floats(rnd, 2 * n + 50)[: 2 * n]).reshape(n, 2)
+    P = case.get("P", 2)
+    params = np.array(nasty_floats(rnd, P * n + 50)[: P * n]).reshape(n, P)
     losses = np.array(nasty_floats(rnd, n + 50)[:n])
     # losses of a diverging model / an undefined loss: NaN, +-inf (and the negative zero) are values like any other
     for v in (np.nan, np.inf, -np.inf, -0.0, np.nan):
@@ -126,7 +128,7 @@ def _c04f_check(reg, case):
     method = np.arange(n) % 2
     sched, loss = {"k": 1}, {"l": 2}
     rng_state = np.random.default_rng(rnd.randrange(1000)).bit_generator.state
-    args = [np.array([[0.0, 0.0], [1.0, 1.0]]), np.array([0.01, 0.01]), np.array([[1.0], [2.0], [3.0]]), 2, 3, 1, 3,
+    args = [np.array([[0.0] * P, [1.0] * P]), np.array([0.01] * P), np.array([[1.0], [2.0], [3.0]]), 2, 3, 1, 3,
             True, "folder", 7, rng_state, "model", sched, loss, 5, n, 2, params, losses, series, batch, method]
     with e2e.tmp_folder() as d:
         jp.save_calibrator_state(d, *args)
